@@ -518,7 +518,7 @@ PROPS["C10"] = dict(engine="corrupt", profiles=[("corrupt", 1, False)], n_ops=40
                     tb_extra=["byte-level integrity model coq/Model/Integrity.v (block envelope, version file guarded by `current`, sfa ToC/trailer, blob frame); the checksum function is a Section variable: each theorem assumes exactly that the checksum of the altered bytes differs from the stored one",
                               "harness/src/corrupt.rs: mutation enumeration and forked read-out (an abort of the child counts as an error result)"],
                     assumptions=["partial: xxh3 collision-freeness on the compared pair is a hypothesis of the theorems", "positions are enumerated per region (every region of every file; a sample of byte offsets per region in the quick tier), each with bit flips and truncations"],
-                    rule="histories build small trees (standard and KV-separated); for every file (tables, blob files, v*, current) every region (block headers, block payloads per block type, index, filter, meta, trailer/ToC, frame header/key/value) gets bit flips and truncations at sampled offsets; after each mutation a forked child opens the tree and performs all point reads and scans: the result must be an error or equal to the original answers. evaluations = histories; mutations counted in impl_stats.mutations",
+                    rule="histories build small trees (standard and KV-separated); for every file (tables, blob files, v*, current) every region (block headers, block payloads per block type, index, filter, meta, trailer/ToC, frame header/key/value) gets bit flips and truncations at sampled offsets; after each mutation a forked child opens the tree and performs all point reads and scans, and for table / blob files then runs a major compaction (which reads every table through the compaction scanner) and repeats all reads: every single answer must be an error or equal to the original one. evaluations = histories; mutations counted in impl_stats.mutations",
                     relevant=lambda f: f["kind"] in ({"corrupt-different", "corrupt-hang"} | COMMON_KINDS),
                     nontrivial=lambda st: st.get("mutations", 0) >= 50 and st.get("mutations_error", 0) >= 10)
 PROPS["C06"] = dict(engine="conc", profiles=[("conc", 1, False)], n_ops=200, quick=96, thorough=3000,
@@ -632,16 +632,22 @@ def multi_engine(prop, tier, seed, count_override, coq):
             stat["shared_cache_trees" if mode == "shared" else ("blobdiff_trees" if mode == "blobdiff" else "config_variants")] = 1
             res.append((hist, tr, fails, drifts, stat))
             olines.append([l for l in open(tr) if l.startswith("O ")])
-        if mode == "blobdiff":
-            # a key-value separated tree may allocate a different number of version seqnos
-            # (different file sizes -> different compaction decisions); answers must be equal,
-            # the snapshot numbers they were asked at need not be
+        if mode in ("blobdiff", "sep"):
+            # a tree with another physical configuration (key-value separation, block / table
+            # sizes) may allocate a different number of version seqnos (different file sizes ->
+            # different compaction decisions); answers must be equal, the snapshot numbers they
+            # were asked at need not be (every tree is also held to the Spec at its own numbers)
             def strip_seq(l):
                 t = l.split()
                 idx = {"get": 3, "range": 4, "prefix": 3}.get(t[1], 2)
                 return " ".join(t[:idx] + t[idx + 1:])
             olines = [[strip_seq(l) for l in ol] for ol in olines]
-        if mode in ("sep", "blobdiff") and olines:
+        # compaction-filter verdicts take effect when a compaction happens to process the entry;
+        # which compactions run depends on file sizes, i.e. on the physical configuration: with
+        # `verdict` operations in the history the answers of differently configured trees may
+        # legitimately differ (each tree is still held to the Spec through its own filter log)
+        has_verdicts = any(l.startswith("verdict ") for l in open(hist))
+        if mode in ("sep", "blobdiff") and olines and not has_verdicts:
             for j in range(1, len(olines)):
                 if olines[j] != olines[0]:
                     d = next((a.strip() + " <> " + b.strip() for a, b in zip(olines[0], olines[j]) if a != b), "different number of observations")
@@ -702,7 +708,10 @@ def corrupt_engine(prop, tier, seed, count_override, coq):
     shutil.rmtree(workdir, ignore_errors=True)
     os.makedirs(workdir, exist_ok=True)
     n = count_override or spec[tier]
-    exhaustive = tier == "thorough"
+    # thorough: many more positions per file; enumerating every byte of every file with the
+    # two-phase read-out (reads, major compaction, reads again) takes hours and is not used
+    exhaustive = False
+    samples = "120" if tier == "thorough" else "14"
     jobs = []
     for i in range(n):
         jobs.append((seed * 1000003 + i, "blob" if i % 3 == 2 else "std"))
@@ -710,12 +719,12 @@ def corrupt_engine(prop, tier, seed, count_override, coq):
     def one(job):
         sd, kind = job
         outf = os.path.join(workdir, f"c-{sd}-{kind}.txt")
-        cmd = [LSMV, "corrupt", str(sd), os.path.join(workdir, f"scratch-{sd}"), outf, kind, "exhaustive" if exhaustive else "sample", "14"]
+        cmd = [LSMV, "corrupt", str(sd), os.path.join(workdir, f"scratch-{sd}"), outf, kind, "exhaustive" if exhaustive else "sample", samples]
         rc, out = sh(cmd, timeout=3000)
         shutil.rmtree(os.path.join(workdir, f"scratch-{sd}"), ignore_errors=True)
         fails, stat = [], {}
         hist = os.path.join(workdir, f"c-{sd}-{kind}.hist")
-        open(hist, "w").write(f"# corruption enumeration: harness/target/debug/lsmv corrupt {sd} <scratch> <out> {kind} {'exhaustive' if exhaustive else 'sample'} 14\n")
+        open(hist, "w").write(f"# corruption enumeration: harness/target/debug/lsmv corrupt {sd} <scratch> <out> {kind} {'exhaustive' if exhaustive else 'sample'} {samples}\n")
         if rc != 0 or not os.path.exists(outf):
             fails.append({"kind": "fatal", "op": -1, "snap": 0, "optext": "", "detail": out[-300:], "line": "lsmv corrupt failed"})
             return (hist, outf, fails, [], stat)
@@ -730,6 +739,8 @@ def corrupt_engine(prop, tier, seed, count_override, coq):
             elif t[0] == "TOTAL":
                 stat["mutations"] = int(t[1])
                 stat["files"] = int(t[2].split("=")[1])
+                if len(t) > 3 and t[3].startswith("twophase="):
+                    stat["mutations_two_phase"] = int(t[3].split("=")[1])
             elif t[0] == "MUT" and t[5] == "DIFFERENT":
                 fails.append({"kind": "corrupt-different", "op": -1, "snap": 0, "optext": f"{t[1]}@{t[3]}:{t[4]}",
                               "detail": " ".join(t[6:])[:300], "line": "FAIL kind=corrupt-different " + line.strip()[:400]})
